@@ -223,6 +223,19 @@ func (e *Engine) evalEmitOnce(runs []emitRun) []emitObl {
 			}
 			continue
 		}
+		if r.cell.Kind == "order" {
+			// both fields occur, the first declared one first (encode, decode and member declarations)
+			ok, detail := true, ""
+			for _, p := range r.paths {
+				t := flatText(p.text)
+				i, j := strings.Index(t, "in.f.Name"), strings.Index(t, "in.g.Name")
+				if i < 0 || j < 0 || j < i {
+					ok = false
+					detail = fmt.Sprintf("first occurrence of the first field at %d, of the second field at %d", i, j)
+				}
+			}
+			add(base+":order", cprops, ok, "the steps of two fields come in declaration order: "+detail)
+		}
 		if r.entry.Dir == "member" {
 			continue
 		}
@@ -385,6 +398,7 @@ func cmdEmit(args []string) {
 	e.cfg.AllowRecursion = true
 	e.cfg.ConcreteMaps = false
 	e.cfg.MaxDepth = 40
+	e.cfg.MaxSteps = 100000 // largest cell on the unchanged tree needs < 10 000 basic blocks
 	filter := ""
 	if len(args) > 0 {
 		filter = args[0]
@@ -397,6 +411,9 @@ func cmdEmit(args []string) {
 			}
 			if en.Dir == "dispatch" && c.Kind != "match" {
 				continue
+			}
+			if c.Kind == "order" && (en.Dir == "dispatch" || en.Lang == "rust") {
+				continue // Rust's entries are per field; the order of its steps is decided by the caller loop
 			}
 			t0 := time.Now()
 			r := e.runEmit(en, c)
@@ -420,7 +437,7 @@ func cmdEmit(args []string) {
 			fmt.Printf("FAIL %s %v %s\n", o.Name, o.Props, o.Detail)
 		}
 	}
-	fmt.Printf("emit obligations=%d failed=%d runs=%d\n", n, bad, len(runs))
+	fmt.Printf("emit obligations=%d failed=%d runs=%d max-steps=%d\n", n, bad, len(runs), emitMaxSteps)
 }
 
 // emitWords: the emitted text as a sequence of words (identifier-like runs of the literal parts, and
